@@ -87,6 +87,11 @@ func (j *JWK) UnmarshalJSON(jwkBytes []byte) error {
 
 		*j = *jwk
 	} else {
+		if isEd25519(key.Kty, key.Crv) && (key.X == nil || len(key.X.data) != ed25519.PublicKeySize) {
+			// go-jose pads or truncates a public key of the wrong length instead of refusing it
+			return fmt.Errorf("unable to read JWK: %w", ErrInvalidKey)
+		}
+
 		var joseJWK jose.JSONWebKey
 
 		err := json.Unmarshal(jwkBytes, &joseJWK)
@@ -110,6 +115,10 @@ func (j *JWK) MarshalJSON() ([]byte, error) {
 	}
 
 	return (&j.JSONWebKey).MarshalJSON()
+}
+
+func isEd25519(kty, crv string) bool {
+	return kty == "OKP" && crv == "Ed25519"
 }
 
 func isSecp256k1(kty, crv string) bool {
